@@ -98,6 +98,21 @@ Value& OpEXPExpression::value(Context& ctx) const
       {
         if (a2.isNull() || a1.isNull())
           return LVAL2(Value(Value::type_integer), a1, a2);
+        Integer e = *a2.integer();
+        if (e >= 0)
+        {
+          /* exact result modulo 2^64 (square and multiply); going through
+           * pow(double) loses the low bits above 2^53 and overflows */
+          uint64_t r = 1, b = (uint64_t)*a1.integer();
+          for (uint64_t n = (uint64_t)e; n != 0; n >>= 1)
+          {
+            if (n & 1)
+              r *= b;
+            b *= b;
+          }
+          Value val((Integer)r);
+          return LVAL2(val, a1, a2);
+        }
         Value val(Integer(std::pow(*a1.integer(), *a2.integer())));
         return LVAL2(val, a1, a2);
       }
